@@ -267,7 +267,12 @@ func runC15(c *Ctx) {
 		fn := p.Fn("sio", "clientSocket._sendBuffers")
 		name := "sio.clientSocket._sendBuffers"
 		isSend := callPred(`\(\*sio\.Manager\)\.packet|\(\*sio\.packetQueue\)\.add`)
-		isBuf := storePred(`s\.sendBuffer`)
+		isBufAny := storePred(`s\.sendBuffer`)
+		// (a store of nil empties the buffer — allowed on the connected path, where C02-D1 demands that its frames are sent first)
+		isBuf := func(in ssa.Instruction) bool {
+			st, ok := in.(*ssa.Store)
+			return ok && isBufAny(in) && Term(st.Val) != "nil"
+		}
 		nz := Assume{`\(len\(buffers\) > 0\)`, true}
 		disc := []Assume{nz, {`\(s\.state == 0\)`, false}, {`\(s\.state == 1\)`, false}, {`forceSend`, false}}
 		r1, t1 := PrunedCanReach(fn, nil, append(disc, Assume{`volatile`, true}), orPred(isSend, isBuf), nil)
